@@ -1504,7 +1504,7 @@ theorem mapping_ordered {A : Arith F} (L : Laws A) (mn mx gain offset : F) (hm :
 
 theorem fromPort_facts {A : Arith F} (L : Laws A) (au : Automation F) (h : FromPort A au) :
     (au.ty = 'i' ∨ au.ty = 'f' ∨ au.ty = 'T') ∧ A.le au.pmin au.pmax = true := by
-  obtain ⟨au0, b, path, p, ⟨hw, hwT⟩, _, _, hb, _, _, e2, e3, e4, _⟩ := h
+  obtain ⟨au0, b, path, p, ⟨hw, hwT, hpos⟩, _, _, hb, _, _, e2, e3, e4, _⟩ := h
   rw [e2, e3, e4]
   unfold bindInfo at hb
   by_cases hF : p.hasF = true
@@ -1522,10 +1522,14 @@ theorem fromPort_facts {A : Arith F} (L : Laws A) (au : Automation F) (h : FromP
           subst hb
           refine ⟨Or.inr (Or.inl rfl), ?_⟩
           simp only
-          apply L.logf_mono
+          have hp := hpos hs _ _ (by simp [portRange, portType, hF, hmn, hmx, hs]; exact ⟨rfl, rfl⟩)
           cases hl : p.logmin with
-          | none => exact L.to32_mono _ _ hle
-          | some l => exact L.to32_mono _ _ (hlog l hl)
+          | none =>
+            rw [hl] at hp
+            exact L.logf_mono _ _ hp (L.to32_mono _ _ hle)
+          | some l =>
+            rw [hl] at hp
+            exact L.logf_mono _ _ hp (L.to32_mono _ _ (hlog l hl))
         · simp only [hs, Bool.false_eq_true, ↓reduceIte, Option.some.injEq] at hb
           subst hb
           exact ⟨Or.inr (Or.inl rfl), L.to32_mono _ _ hle⟩
@@ -1548,10 +1552,14 @@ theorem fromPort_facts {A : Arith F} (L : Laws A) (au : Automation F) (h : FromP
             subst hb
             refine ⟨Or.inl rfl, ?_⟩
             simp only
-            apply L.logf_mono
+            have hp := hpos hs _ _ (by simp [portRange, portType, hF, hT, hmn, hmx, hs]; exact ⟨rfl, rfl⟩)
             cases hl : p.logmin with
-            | none => exact L.to32_mono _ _ hle
-            | some l => exact L.to32_mono _ _ (hlog l hl)
+            | none =>
+              rw [hl] at hp
+              exact L.logf_mono _ _ hp (L.to32_mono _ _ hle)
+            | some l =>
+              rw [hl] at hp
+              exact L.logf_mono _ _ hp (L.to32_mono _ _ (hlog l hl))
           · simp only [hs, Bool.false_eq_true, ↓reduceIte, Option.some.injEq] at hb
             subst hb
             exact ⟨Or.inl rfl, L.to32_mono _ _ hle⟩
@@ -1606,7 +1614,7 @@ theorem bindInfo_spec (A : Arith F) (au0 b : Automation F) (path : Bytes) (p : P
     ∃ lo hi, portRange A p = some (lo, hi) ∧
       (p.scaleLog = false → b.pmin = lo ∧ b.pmax = hi) ∧
       (p.scaleLog = true → b.pmin = A.logf lo ∧ b.pmax = A.logf hi) := by
-  obtain ⟨_, hwT⟩ := hw
+  obtain ⟨_, hwT, _⟩ := hw
   unfold bindInfo at hb
   have htake : List.take 127 path = path := List.take_of_length_le hl
   cases hF : p.hasF <;> cases hT : p.hasT <;> cases hmn : p.min <;> cases hmx : p.max <;>
@@ -1744,7 +1752,7 @@ theorem exact_laws : Laws exact := by
   · intro x y h; exact h
   · intro x y h; exact roundAway_mono h
   · intro x y h; exact truncInt_mono h
-  · intro x y h; exact h
+  · intro x y _ h; exact h
   · intro x y h; exact h
 
 theorem mapping_default (mn mx : Rat) : mapping exact mn mx 100 0 = (mn, mx) := by
